@@ -16,6 +16,7 @@ import (
 	"errors"
 	"fmt"
 	"math/big"
+	"reflect"
 	"strings"
 	"time"
 
@@ -122,6 +123,16 @@ func fromScheme(s sign.Scheme) *instance {
 		}
 		if x, _ := sk.MarshalBinary(); !bytes.Equal(x, b2) {
 			return a2, []byte("MarshalBinary shares memory with the private key")
+		}
+		// the holder wipes the private key object it no longer needs (possible where the key
+		// type is a byte slice): the public key from the same call is another object
+		if v := reflect.ValueOf(sk); v.Kind() == reflect.Slice && v.Type().Elem().Kind() == reflect.Uint8 {
+			for i := 0; i < v.Len(); i++ {
+				v.Index(i).SetUint(0xa5)
+			}
+			if x, _ := pk.MarshalBinary(); !bytes.Equal(x, a2) {
+				return []byte("the public key changes when the private key from the same DeriveKey call is wiped"), b2
+			}
 		}
 		return a2, b2
 	}
